@@ -1525,7 +1525,10 @@ where
             let info_sector =
                 InfoSector::create_from_bytes(info_block).map_err(Error::FormatError)?;
             volume.free_clusters_count = info_sector.free_clusters_count();
-            volume.next_free_cluster = info_sector.next_free_cluster();
+            // A hint that is not a cluster of this volume is no hint
+            volume.next_free_cluster = info_sector
+                .next_free_cluster()
+                .filter(|c| c.0 < volume.cluster_count.saturating_add(2));
 
             Ok(VolumeType::Fat(volume))
         }
